@@ -1766,7 +1766,9 @@ namespace bloch::runtime {
             // The seeds are all such objects, reachable or not: garbage that refers to a *live* one
             // is kept too - sweeping it would drop a reference to the live object, and whether it
             // is later released by its last variable (destructor runs, qubits reset) or only found
-            // unreachable at the end would depend on when this collection ran.
+            // unreachable at the end would depend on when this collection ran. The same holds
+            // for garbage that reaches such an object through live plain objects, so the search
+            // goes through reachable objects as well.
             std::unordered_set<const Object*> pinned;
             for (auto& obj : objects)
                 if (releaseIsObservable(obj->cls))
@@ -1784,7 +1786,7 @@ namespace bloch::runtime {
             while (changed) {
                 changed = false;
                 for (auto& obj : objects) {
-                    if (obj->marked || pinned.count(obj.get()))
+                    if (pinned.count(obj.get()))
                         continue;
                     for (const auto& f : obj->fields) {
                         if (refersToPinned(f)) {
